@@ -136,6 +136,7 @@ func init() {
 }
 
 type c08Game struct {
+	noCounters bool
 	start searchReq
 	soft  int
 	depth int
@@ -150,6 +151,7 @@ func c08Games(r *ev.Run) []c08Game {
 	softs := []int{60, 200, 500, 1500, 4000}
 	for i := 0; i < n; i++ {
 		g := c08Game{start: searchReq{FEN: br[(i*7+int(r.Seed)*3)%len(br)].FEN}, soft: softs[i%len(softs)], depth: 6 + i%3, plies: ev.Pick(r, 30, 60), tt: []int{32000, 1 << 20}[i%2]}
+		g.noCounters = i%2 == 1
 		gs = append(gs, g)
 	}
 	// games that run into the fifty-move rule and into repetitions
@@ -180,7 +182,7 @@ func c08PlayGame(r *ev.Run, g c08Game, judge bool, counters *[4]atomic.Int64) st
 		if judge && r.Expired() {
 			break
 		}
-		q := searchReq{FEN: g.start.FEN, Moves: append([]string(nil), moves...), Depth: g.depth, Nodes: -1, SoftNodes: g.soft, TT: g.tt}
+		q := searchReq{FEN: g.start.FEN, Moves: append([]string(nil), moves...), Depth: g.depth, Nodes: -1, SoftNodes: g.soft, TT: g.tt, NoCounters: g.noCounters}
 		rA := runSearch(sA, hA.B, q)
 		oA := c08Observe(sA, &rA)
 		fmt.Fprintf(&transcript, "%d %d %d %d\n%s", oA.Score, oA.Move, oA.Ponder, oA.Nodes, oA.Out)
